@@ -225,6 +225,36 @@ def extra_scenarios(ctx, uberjob):
                 ctx.fail("failing-consumer:inputs-kept", "the input of a consumer that failed (%s) stayed alive while the run went on" % variant,
                          {"variant": variant, "scheduler": scheduler, "max_errors": None, "max_workers": 3})
 
+    # ---- (C) a call that merely DEPENDS on another call (add_dependency) does not keep that call's result alive
+    for workers in (1, 3):
+        for scheduler in (None, "random"):
+            box = {}
+
+            def make4():
+                b = Big()
+                box["wr"] = weakref.ref(b)
+                return b
+
+            def consumer(x):
+                return 1
+
+            def dependent():
+                gc.collect()
+                box["alive_in_dependent"] = box["wr"]() is not None
+                return 2
+
+            p = uberjob.Plan()
+            a = p.call(make4)
+            c = p.call(consumer, a)
+            d_ = p.call(dependent)
+            p.add_dependency(a, d_)
+            p.add_dependency(c, d_)          # d starts after a's only consumer has finished
+            uberjob.run(p, output=[c, d_], max_workers=workers, scheduler=scheduler, progress=None)
+            ctx.case(("c16-dependency-only", workers, scheduler))
+            if box.get("alive_in_dependent"):
+                ctx.fail("dependency-only:kept", "the result of a call stays alive for a call that merely depends on it (add_dependency), "
+                         "although every call that consumes it has finished", {"workers": workers, "scheduler": scheduler})
+
     # ---- (B) retry: reference counting alone releases the inputs of a call whose first attempt raised
     for workers in (1, 4):
         for scheduler in (None, "random"):
